@@ -129,21 +129,27 @@ Qed.
 Lemma Rltb_true : forall a b, Rltb a b = true <-> a < b.
 Proof. intros a b. unfold Rltb. destruct (Rlt_dec a b); split; intros; try assumption; try reflexivity; try discriminate; contradiction. Qed.
 
-(** frequency: Residue / (z - Pole) *)
+(** frequency: Residue / (z - Pole).  (Proved by computation; the second alternative tolerates a reordering
+    of the generated expression.) *)
 Lemma term_z_eq : forall t z, term_z t z = (fst t / (z - RtoC (snd t)))%C.
-Proof. intros t z. reflexivity. Qed.
-
-(** the condition selecting the branch is Pole > 0 *)
-Lemma term_tau_cond_R : forall r P tau beta, term_tau_cond R ROps r P tau beta = Rltb 0 P.
-Proof. reflexivity. Qed.
+Proof.
+  intros t z. unfold term_z, term_freq. cbn [COps t_add t_sub t_mul t_div t_opp].
+  first [ reflexivity | unfold Cdiv; repeat f_equal; ring ].
+Qed.
 
 (** the two branches, real instance *)
 Lemma term_tau_then_R : forall r P tau beta,
   term_tau_then R ROps r P tau beta = - r * exp (- tau * P) / (1 + exp (- beta * P)).
-Proof. reflexivity. Qed.
+Proof.
+  intros r P tau beta. unfold term_tau_then. cbn [ROps t_add t_sub t_mul t_div t_opp t_exp t_ofZ].
+  first [ reflexivity | pose proof (exp_pos (- beta * P)); field; lra ].
+Qed.
 Lemma term_tau_else_R : forall r P tau beta,
   term_tau_else R ROps r P tau beta = - r * exp ((beta - tau) * P) / (exp (beta * P) + 1).
-Proof. reflexivity. Qed.
+Proof.
+  intros r P tau beta. unfold term_tau_else. cbn [ROps t_add t_sub t_mul t_div t_opp t_exp t_ofZ].
+  first [ reflexivity | pose proof (exp_pos (beta * P)); field; lra ].
+Qed.
 
 (** tau_branches_agree: the two overflow-avoiding branches are the same real function (both are
     defined everywhere: 1 + e^x > 0). *)
@@ -171,16 +177,18 @@ Proof.
 Qed.
 
 (** complex residue: real and imaginary parts are the real formula applied to Re / Im of the residue *)
-Lemma term_tau_cond_C : forall Rs P tau beta,
-  term_tau_cond C COps Rs (RtoC P) (RtoC tau) (RtoC beta) = Rltb 0 P.
+(** the branch condition does not depend on the residue, and is the same at C (real arguments embedded) and at R *)
+Lemma term_tau_cond_same : forall (Rs : C) (r P tau beta : R),
+  term_tau_cond C COps Rs (RtoC P) (RtoC tau) (RtoC beta) = term_tau_cond R ROps r P tau beta.
 Proof. reflexivity. Qed.
 
 Lemma term_t_parts : forall t beta tau,
   term_t t beta tau = (term_tR (Re (fst t)) (snd t) beta tau, term_tR (Im (fst t)) (snd t) beta tau).
 Proof.
   intros [[a b] P] beta tau. unfold term_t, term_tR, term_tau. simpl fst; simpl snd.
-  rewrite term_tau_cond_C, !term_tau_cond_R. unfold Re, Im; simpl fst; simpl snd.
-  destruct (Rltb 0 P).
+  unfold Re, Im; simpl fst; simpl snd.
+  rewrite <- (term_tau_cond_same (a, b) a P tau beta), <- (term_tau_cond_same (a, b) b P tau beta).
+  destruct (term_tau_cond C COps (a, b) (RtoC P) (RtoC tau) (RtoC beta)).
   - rewrite !term_tau_then_R.
     unfold term_tau_then; simpl. unfold Cdiv, Cinv, Cmult, Copp, Cplus, RtoC; simpl.
     pose proof (exp_pos (- beta * P)) as Hp.
